@@ -199,9 +199,7 @@ pub fn pump<S: Sys>(
                 for (pos, sym) in cycle.iter().enumerate() {
                     let pf = || {
                         let mut p: Vec<String> = prefix.iter().map(|x| S::render(x)).collect();
-                        for _ in 0..it {
-                            p.extend(cycle.iter().map(|x| S::render(x)));
-                        }
+                        push_repeat::<S>(&mut p, cycle, it);
                         p.extend(cycle[..=pos].iter().map(|x| S::render(x)));
                         p
                     };
@@ -213,9 +211,7 @@ pub fn pump<S: Sys>(
                         let mut c = s.clone();
                         let pf = || {
                             let mut p: Vec<String> = prefix.iter().map(|x| S::render(x)).collect();
-                            for _ in 0..=it {
-                                p.extend(cycle.iter().map(|x| S::render(x)));
-                            }
+                            push_repeat::<S>(&mut p, cycle, it + 1);
                             p.push(S::render(t));
                             p
                         };
@@ -264,4 +260,20 @@ pub fn cycles_upto2<T: Clone>(syms: &[T], extra: &[Vec<T>]) -> Vec<Vec<T>> {
     }
     v.extend(extra.iter().cloned());
     v
+}
+
+/// compressed rendering of `times` repetitions of a cycle: "repeat <n>x: ev | ev | ..."
+/// (expanded again by `vcheck replay-history`)
+fn push_repeat<S: Sys>(p: &mut Vec<String>, cycle: &[S::Sym], times: usize) {
+    if times == 0 {
+        return;
+    }
+    if times <= 3 {
+        for _ in 0..times {
+            p.extend(cycle.iter().map(|x| S::render(x)));
+        }
+    } else {
+        let body: Vec<String> = cycle.iter().map(|x| S::render(x)).collect();
+        p.push(format!("repeat {}x: {}", times, body.join(" | ")));
+    }
 }
